@@ -138,6 +138,24 @@ def eval_expect(exp, out):
     if k == 'line_negative':
         v = out['solution'].get(exp['line'])
         return v is not None and Fraction(v) < 0 and (not exp.get('need_solved') or out['solved'] is True)
+    if k in ('balance', 'nc_balance'):
+        if out['solved'] is not True:
+            return False
+        def g(name):
+            v = out['solution'].get(name)
+            return Fraction(v) if v not in (None, '') else Fraction(0)
+        if k == 'balance':
+            a = {x: g('1040.' + x) for x in ('24', '33', '34', '35a', '36', '37')}
+            w = exp['which']
+            if w.startswith('34-37'):
+                return a['34'] - a['37'] != a['33'] - a['24']
+            if w.startswith('at most'):
+                return a['34'] > 0 and a['37'] > 0
+            return a['35a'] + a['36'] != a['34']
+        a = {x: g('nc_d-400.' + x) for x in ('19', '25', '26a', '28', '33', '34')}
+        if exp['which'].startswith('28-26a'):
+            return a['28'] - a['26a'] != a['25'] - a['19']
+        return 'nc_d-400.34' in out['solution'] and a['34'] + a['33'] != a['28']
     raise ValueError(k)
 
 
